@@ -772,6 +772,7 @@ pub fn execute(case: &Case, ctx: &mut Ctx) {
                         init_offset: None,
                         init_speed_unset: false,
                         nested_drift: false,
+                        fric_ramp_up: None,
                     };
                     let mut c2 = Ctx::default();
                     trn::execute(&sub, &mut c2);
